@@ -41,8 +41,8 @@ Next == UNCHANGED x
 Spec == Init /\ [][Next]_x
 
 (* toy invertible core, only to exercise the framing offsets of EncryptWith / DecryptWith in the model *)
-Toy(k, iv, s)    == [i \in 1..Len(s) |-> (s[i] + k[1] + iv[1] + i) % 256]
-ToyInv(k, iv, s) == [i \in 1..Len(s) |-> (s[i] + 1024 - k[1] - iv[1] - i) % 256]
+Toy(k, iv, s)    == <<>> \o [i \in 1..Len(s) |-> (s[i] + k[1] + iv[1] + i) % 256]
+ToyInv(k, iv, s) == <<>> \o [i \in 1..Len(s) |-> (s[i] + 1024 - k[1] - iv[1] - i) % 256]
 K1 == Rep(7, 16)
 IV1 == Rep(200, 16)
 
